@@ -341,7 +341,7 @@ class Verifier(Executor):
         # bind parameters that the signature leaves to their defaults
         a = fn.args
         names = [x.arg for x in a.posonlyargs + a.args] + [x.arg for x in a.kwonlyargs] + \
-                ([a.kwarg.arg] if a.kwarg is not None else [])
+                ([a.kwarg.arg] if a.kwarg is not None else []) + ([a.vararg.arg] if a.vararg is not None else [])
         defaults = dict(zip([x.arg for x in a.posonlyargs + a.args][len(a.posonlyargs + a.args) - len(a.defaults):], a.defaults))
         defaults.update({x.arg: d for x, d in zip(a.kwonlyargs, a.kw_defaults) if d is not None})
         for nme in names:
